@@ -37,6 +37,7 @@ def build(chk):
     chk.add(ob('O4.Box_IntersectsTask', 'h_box_intersects_task', 'hand-written task (PyImathBox.cpp): results[p] = box.intersects(points[p]) for start <= p < end only', bounds=B + '; Box3i and V3i points with arbitrary contents', timeout=400))
     chk.add(ob('O4.Box_ExtendByTask', 'h_box_extend_task', 'hand-written task (PyImathBox.cpp): ExtendByTask::execute(start,end,tid) extends the worker box boxes[tid] - whatever it already holds - by points[start..end) and leaves the other workers\' boxes alone (inductive step: any number of sub-ranges per worker id, any order)',
                bounds=B + '; three worker boxes with arbitrary contents, arbitrary worker id, V3i points with arbitrary contents', timeout=400, unwind=max(6 * N + 8, 20)))
+    chk.outside += ['the binding-level dispatchers (VectorizedVoid*MemberFunction::apply) that CHOOSE the task class and accessor kinds: a harness exists (wrappers/pyapply.cpp, harness/c20/apply.c) but Task::execute stays a virtual call in the clang -O1 IR (the vptr store is not forwarded past the opaque PyReleaseLock calls), and virtual dispatch is not modelled; seeded change S40 there is not caught']
     # ---- hand-written floating-point tasks (PyImathQuat.cpp), FP arithmetic uninterpreted on both sides
     e2 = EngB(chk, 'pytask2', py=True, validate=False)
     e2.variant('ufar', uf=['add', 'sub', 'mul', 'div', 'sqrt'])
